@@ -73,16 +73,27 @@ def replay_serde_decode(d):
 
 
 def replay_serde_truncated(d):
-    """decode(data) must raise; returning a value (or exceeding the work bound) reproduces the violation."""
+    """decode(data) must raise; returning a value (or exceeding the work bound) reproduces the violation.
+
+    Work-bound replays run under a 2 GiB address-space limit: an allocation proportional to a length prefix then
+    fails fast with MemoryError, which counts as 'work not bounded by the input length'."""
     import time
 
     from fcp import serde
 
     fcp = _fcp(d)
     data = bytearray(d["data"])
+    if d.get("work_bound"):
+        try:
+            import resource
+            resource.setrlimit(resource.RLIMIT_AS, (2 << 30, 2 << 30))
+        except Exception:
+            pass
     t = time.time()
     try:
         dec = serde.decode(fcp, d["top"], data)
+    except MemoryError:
+        return True, f"decode({list(data)[:24]}) ran out of memory: work/allocation proportional to a length prefix, not to the input"
     except Exception as e:
         dt = time.time() - t
         if d.get("work_bound") and dt > d.get("max_seconds", 2.0):
@@ -260,10 +271,33 @@ def _leaf_type(t):
 
 
 def replay_parser_refs(d):
+    r = _replay_parser_refs(d, prime=False)
+    if r[0]:
+        return r
+    # the property must hold whatever the process parsed before: parse a fully resolving variant first, then again
+    r2 = _replay_parser_refs(d, prime=True)
+    if r2[0]:
+        return True, "after parsing a resolving variant of the same template first in the same process: " + r2[1]
+    return r
+
+
+def _replay_parser_refs(d, prime):
     import os
     import shutil
 
     names = d["names"]
+    if prime:
+        pn = dict(names)
+        for k, (vis, _, _) in d["refs"].items():
+            if vis:
+                pn[k] = names[vis[0]]
+        proot = _materialize(d["files"], pn)
+        try:
+            _get(os.path.join(proot, "main.fcp"))
+        except Exception:
+            pass
+        finally:
+            shutil.rmtree(proot, ignore_errors=True)
     root = _materialize(d["files"], names)
     try:
         try:
